@@ -3559,7 +3559,9 @@ func (t *Topic) original(uid types.Uid) string {
 		if pud, ok := t.perUser[uid]; ok {
 			return pud.topicName
 		}
-		panic("Invalid P2P topic")
+		// Not a member of this P2P topic, e.g. root acting on behalf of a third user: there is no
+		// per-user name, report the topic under the name it was addressed by.
+		return t.name
 	}
 
 	if t.cat == types.TopicCatGrp && t.isChan {
